@@ -126,6 +126,7 @@ def make_model_class():
             self.extra_construct = None    # callable(model) for C06/C11 (statistics, streams)
             self.extra_action = None       # callable(model, action) for domain actions
             self.on_exec = None            # callable(model, seq, node) before the actions
+            self.fault_idx = set()         # trace indices whose handler fails (after its actions)
 
         def construct_model(self):
             self.constructed += 1
@@ -147,7 +148,7 @@ def make_model_class():
             if self.gate_at is not None and len(self.trace) - 1 == self.gate_at:
                 self.reached.set()
                 self.gate.wait(LIVENESS_S)
-            if seq in self.faults:
+            if seq in self.faults or (len(self.trace) - 1) in self.fault_idx:
                 raise Fault("injected fault in event %d" % seq)
 
         def _sched(self, how, arg, node, prio):
